@@ -121,7 +121,12 @@ def _unique_outputs(scope: Scope) -> set[str]:
 
 def _has_single_output_row(scope: Scope) -> bool:
     return isinstance(scope.expression, exp.Select) and (
-        all(isinstance(e.unalias(), exp.AggFunc) for e in scope.expression.selects)
+        (
+            all(isinstance(e.unalias(), exp.AggFunc) for e in scope.expression.selects)
+            # GROUP BY yields a row per group and HAVING can filter the only row out
+            and not scope.expression.args.get("group")
+            and not scope.expression.args.get("having")
+        )
         or _is_limit_1(scope)
         or not scope.expression.args.get("from_")
     )
